@@ -111,6 +111,12 @@ impl RunStats {
             self.shape_tag(k);
         }
     }
+    /// plain counter (reported under probes; does not contribute to the run's shape key)
+    pub fn count(&mut self, k: &str, n: u64) {
+        if n > 0 {
+            *self.probes.entry(k.to_string()).or_insert(0) += n;
+        }
+    }
     pub fn probe(&mut self, k: &str) {
         *self.probes.entry(k.to_string()).or_insert(0) += 1;
         self.shape_tag(k);
